@@ -51,9 +51,9 @@ def NoExc (evs : List Event) : Prop := ∀ e ∈ evs, e.isExc = false
 /-- outstanding requests carry pairwise distinct transaction ids -/
 def Distinct (evs : List Event) : Prop := ((outstanding evs).map (·.2)).Nodup
 
-/-- no outstanding request has seen 65536 or more further calls of `execute` (the scope in which the 16-bit
-    transaction id space cannot wrap onto a live request) -/
-def NoWrap (evs : List Event) : Prop := ∀ p ∈ outstanding evs, (sents evs).length - p.1 < 65536
+/-- fewer than 65536 requests are outstanding: there is a free 16-bit transaction id (the only side condition of
+    the clauses that need distinct ids) -/
+def Room (evs : List Event) : Prop := (outstanding evs).length < 65536
 
 /-! ### predicates on one operation, given the trace before it (`pre`) and the connection status -/
 
@@ -116,7 +116,7 @@ instance (evs : List Event) : Decidable (TidMatch evs) := by unfold TidMatch; ex
 instance (evs : List Event) : Decidable (FifoOrder evs) := by unfold FifoOrder; exact inferInstance
 instance (evs : List Event) : Decidable (NoExc evs) := by unfold NoExc; exact inferInstance
 instance (evs : List Event) : Decidable (Distinct evs) := by unfold Distinct; exact inferInstance
-instance (evs : List Event) : Decidable (NoWrap evs) := by unfold NoWrap; exact inferInstance
+instance (evs : List Event) : Decidable (Room evs) := by unfold Room; exact inferInstance
 instance (op : Op) (es : List Event) : Decidable (Arrived op es) := by
   unfold Arrived; split <;> exact inferInstance
 instance (v : Variant) (pre : List Event) (t : Nat) : Decidable (Solicited v pre t) := by
@@ -145,10 +145,10 @@ instance (P : List Event → Bool → Op → List Event → Prop) [hd : ∀ a b 
     have := instDecidableAllSegs P (pre ++ es) (connAfter conn op) h
     by unfold AllSegs; exact inferInstance
 
-/-- the scope of the partial theorems: `NoWrap` before every operation -/
-def NoWrapAll (h : Hist) : Prop := AllSegs (fun pre _ _ _ => NoWrap pre) [] false h
+/-- `Room` before every operation of the history -/
+def RoomAll (h : Hist) : Prop := AllSegs (fun pre _ _ _ => Room pre) [] false h
 
-instance (h : Hist) : Decidable (NoWrapAll h) := by unfold NoWrapAll; exact inferInstance
+instance (h : Hist) : Decidable (RoomAll h) := by unfold RoomAll; exact inferInstance
 
 /-- The clauses of the property that hold for every history. -/
 structure Always (v : Variant) (h : Hist) : Prop where
@@ -184,7 +184,7 @@ structure Verdict where
   distinct : Bool
   delivered : Bool
   lostFails : Bool
-  noWrap : Bool
+  room : Bool
 
 def verdict (v : Variant) (h : Hist) : Verdict :=
   let evs := flat h
@@ -199,6 +199,6 @@ def verdict (v : Variant) (h : Hist) : Verdict :=
     distinct := decide (AllSegs (fun pre _ _ _ => Distinct pre) [] false h)
     delivered := decide (AllSegs (fun pre _ op es => Delivered v pre op es) [] false h)
     lostFails := decide (AllSegs (fun pre _ op es => LostFails pre op es) [] false h)
-    noWrap := decide (NoWrapAll h) }
+    room := decide (RoomAll h) }
 
 end Pymodbus.AsyncClient.Spec
